@@ -525,7 +525,7 @@ def known_findings(prop):
 # evidence
 # ----------------------------------------------------------------------------
 TRUSTED_BASE = [
-    "Coq 8.16.1 kernel (coqc .vo build; vm_compute in Examples/refutations; no native_compute)",
+    "Coq 8.16.1 kernel (coqc .vo build; vm_compute in Examples/refutations; no native_compute); thorough tier: coqchk -o -silent re-checks the property's .vo closure (empty axiom list, no switched-off check required)",
     "axioms: none declared by the development; every property theorem must print 'Closed under the global context'",
     "extraction: Coq.extraction.ExtrOcamlBasic only (bool, option, unit, list, prod, sumbool, sumor, andb, orb); no Extract Constant/Inductive of our own; OCaml 4.13.1",
     "hand-written OCaml driver (case parser incl. arbitrary-precision literals and u64/i64 range checks, printers, schedule enumerator over the model's cstep, wrap_cb closure running extra steps from inside callbacks) and Rust harness (case parser, printers, watchdog, cooperative scheduler, iterator-consumer variants)",
